@@ -226,6 +226,16 @@ CHECKS['C02'] = ('4/C02',
 
 NOT_APPLICABLE = {}
 
+# the value-level checks that carry the shared route layer (harness/routes.py FAMILY; DESIGN.md section 1.7)
+ROUTED = ['C04', 'C05', 'C06', 'C07', 'C08', 'C11', 'C12', 'C13', 'C14', 'C15', 'C16', 'C17', 'C18']
+ROUTE_TEXT = (' Route layer (DESIGN.md 1.7): every function and operator of the family is also evaluated with its operand values '
+              'arriving as literals, from the cell and range listeners, as results of custom functions, of nested evaluations and of '
+              'IF/CHOOSE, with each separator, with white space and line breaks, on a debug parser and twice on one parser; the record '
+              'must equal that of the plain call over variables (real code only) and is compared with the Lean evaluator model of the '
+              'routed formula (driver op evalf; the real-valued builtins enter it as Float host functions).')
+ROUTE_NOTE = (' Route layer: the variable route is the reference; IF(TRUE,x,0) and CHOOSE(1,x) are taken to hand x on unchanged; '
+              'routes are sampled, not enumerated.')
+
 
 def main():
     props = [json.loads(l)['id'] for l in open(os.path.join(VERIF, 'properties.jsonl'))]
@@ -234,6 +244,10 @@ def main():
         if pid not in CHECKS:
             continue
         sec, text, note, tech = CHECKS[pid]
+        if pid in ROUTED:
+            text += ROUTE_TEXT
+            note += ROUTE_NOTE
+            tech += ' + route layer (the same operand values on every route to the evaluator: oracle = route independence on the real code, correspondence = the evaluator model on the routed formula)'
         checks.append({
             'property_id': pid,
             'quick_cmd': '/venv/bin/python harness/check.py %s --tier quick' % pid,
